@@ -35,7 +35,8 @@ CLAIMED = {
              "twice the submissions in stubs. On the link store translated from the source on every run (GenLinks.v): add_links appends exactly the "
              "model's stubs and rewrites the page's block in place; the weighted traversal returns the model's weighted target list on the "
              "store of every reachable state; the translated Traph.get_page_links (GenTraphL.v) answers exactly the specification's weighted pairs "
-             "for every history and every switch setting.", T_REF, "DESIGN.md section 6 C03"),
+             "for every history and every switch setting; the translated Traph.add_links (GenTraphK.v) answers the specification's report and leaves "
+             "header, trie file and link file of the model's next state (C03_source_traph_add_links).", T_REF, "DESIGN.md section 6 C03"),
     "C04": c(REF + "Props/C04.v: retrieve_webentity / retrieve_prefix equal longest-stem-prefix resolution over the specification's net prefix map for "
              "every well-formed LRU (present or not), refusal iff none; prefix enumeration = that map; attaching an attached prefix is refused "
              "(create and add_prefix), exactly then. On the API requests translated from the source on every run (GenTraph.v over GenTrieW.v / GenTrie.v): "
@@ -52,26 +53,38 @@ CLAIMED = {
              "installing a rule equals re-inserting the pages beneath the anchor (a permutation of them, in the index's order). Props/C06c.v, on the "
              "insertion path translated from the source on every run (GenTraphP.v: Traph.add_page / add_pages / __add_page with the rule ladder, "
              "__create_webentity, the write report; the regex search is the modelled matcher): the translated request's report is the specification's "
-             "reply and the files end holding the model's next state, for every history whose reopen requests re-supply the rules.", T_REF, "DESIGN.md section 6 C06",
+             "reply and the files end holding the model's next state, for every history whose reopen requests re-supply the rules; the translated "
+             "get_potential_prefix (GenTraphR.v) answers the specification's decision without changing a byte, the translated "
+             "remove_webentity_creation_rule is accepted / refused / crashes as the specification says and leaves the model's next RAM table and file.", T_REF, "DESIGN.md section 6 C06",
              "The rule family is modelled in Rules.v (stem-level matcher with re.search offset scan) and compared with Python's re on every run."),
     "C07": c(REF + "Props/C07.v: an entry (A,B,n) is in the network iff n = number of submitted links whose ends resolve to A and B (both resolved; A=B "
              "only with include_auto), n <> 0; inbound = transpose; the memory-light variant has the same entries; page tallies = pages resolving "
-             "to A by crawled mark.", T_REF, "DESIGN.md section 6 C07"),
+             "to A by crawled mark. On the requests translated from the source on every run (GenTraphN.v, GenTraphN2.v: get_webentities_links and the "
+             "memory-light get_webentities_links_slow, run alone): the nested dict returned holds, entry by entry, the specification's network in the "
+             "direction asked (and, fast variant, its page tallies), for every history and both switches.", T_REF, "DESIGN.md section 6 C07"),
     "C08": c(REF + "Props/C08.v: get_webentity_pagelinks returns exactly the specification's link set for every switch triple (refusal for none), without "
-             "duplicates when queried with the webentity's own prefixes; cited/citing sets are the resolution images of the other ends (0 = nowhere).",
+             "duplicates when queried with the webentity's own prefixes; cited/citing sets are the resolution images of the other ends (0 = nowhere). "
+             "On the requests translated from the source on every run (GenTraphQ.v): get_webentity_pagelinks / outlinks / inlinks answer the model's "
+             "lists, order included, for every history (C08_source_pagelinks, C08_source_neighbours).",
              T_REF, "DESIGN.md section 6 C08"),
     "C09": c("Props/C09.v on every reachable state: the token chain of paginate_webentity_pages terminates, every non-final answer holds exactly k pages "
              "and a token, the last says done, counts match contents, the concatenation is the per-prefix ascending sequence and a permutation of "
              "the unpaginated answer (also crawled-only); resuming a token on any later state reached by writes that keep stems and webentity "
-             "marks yields exactly the pages above the token (nothing repeated, none skipped); tokens round-trip through their text.",
+             "marks yields exactly the pages above the token (nothing repeated, none skipped); tokens round-trip through their text. Props/C09s.v, on "
+             "the code translated from the source on every run (GenTrieI.v: the recursive ordered traversal; GenTraphG.v: the request): the translated "
+             "request returns the model's answer record (pages, counts, done flag, next token) and raises exactly when the model refuses or crashes, "
+             "for every history, page size, token string and switch, so the chain theorems are theorems about the translated request.",
              "Coq proof: in-order traversal sortedness, pruning soundness and chunking by induction; differential run following every token", "DESIGN.md section 6 C09"),
     "C10": c("Props/C10.v on every reachable state: the token chain of paginate_webentity_pagelinks terminates, each non-final answer covers exactly k "
              "link-bearing source pages, the concatenation equals (as a permutation) the unpaginated answer for the same switches; tokens issued "
-             "after link-less pages resume correctly (defect F3 repaired).",
+             "after link-less pages resume correctly (defect F3 repaired). Props/C10s.v: the request translated from the source on every run "
+             "(GenTraphH.v) returns the model's answer record and raises exactly when the model refuses or crashes, for every history, size, token, switches.",
              "Coq proof: chunking of the in-order link items by induction; differential run following every token", "DESIGN.md section 6 C10"),
     "C11": c("Props/C11.v: reopening changes neither file (byte for byte), re-supplying the current rules makes reopen the identity at any position of "
              "any history (same state, same other replies), both files are whole blocks in every state, clear with rules = fresh index with them, "
-             "clear without = files of a fresh index. Runtime part (open flags, buffering): reopen/clear twins on the real implementation.",
+             "clear without = files of a fresh index. Props/C11b.v, on the header class translated from the source on every run (GenTraphW.v: "
+             "LRUTrieHeader.__init__ / __ensure / read): opening the trie file of any reachable state builds, without changing a byte, the header "
+             "object of that state; a new file gets counter 0. Runtime part (open flags, buffering): reopen/clear twins on the real implementation.",
              "Coq proof on the model's persistent state + twin runs of the implementation (reopened vs never closed, cleared vs fresh)", "DESIGN.md section 6 C11",
              "Partial for OS page cache / Python buffering, which no model here exhibits."),
     "C12": c("Props/C12.v for EVERY history without clear from ANY state (no well-formedness needed): reported ids strictly increase, all above the header "
@@ -105,13 +118,17 @@ CLAIMED = {
              "the storage ends holding exactly the trie file of the model's next state, for every history and every LRU.", T_REF, "DESIGN.md section 6 C19"),
     "C20": c(REF + "Props/C20.v: the answer has min(k, n) entries among the webentity's pages within the depth limit, in non-increasing order, no omitted "
              "page has a larger reported indegree, reported indegree = distinct in-sources except that 0 is reported as 1 (defect F7: "
-             "C20_zero_reported_one / C20_refuted_F7; the model mirrors the code, the oracle separates this known finding from any other).",
+             "C20_zero_reported_one / C20_refuted_F7; the model mirrors the code, the oracle separates this known finding from any other). On the "
+             "request translated from the source on every run (GenTraphM.v; heapq modelled as a priority queue): it returns the model's answer list, "
+             "order included, for every history (C20_source_most_linked); F7 read off the translated code (C20_source_F7).",
              T_REF, "DESIGN.md section 6 C20", "Known finding F7 (known_findings.json): true indegree 0 reported as 1, pinned by the repository's own test."),
 }
 CLAIMED["C16"] = c(
     "Props/C16.v, C16b.v, C16c.v (SchedFacts*.v, SchedRefute.v) on the coroutine model of the generator requests (Sched.v: one step = the "
     "code between two yields, with the generator's local caches, traversal stacks of block addresses and node data read before a yield; "
-    "five kinds: crawl batch, rule installation, page query, network query, page-link query): a batch run alone equals the request; for ANY "
+    "five kinds: crawl batch, rule installation, page query, network query, page-link query): a batch run alone equals the request, and the "
+    "request translated from the source with its sequential meaning (GenTraphB.v, Props/C16s.v) answers the specification's report and "
+    "leaves the model's next files; for ANY "
     "mix of these jobs advanced by ANY schedule from any state related to the specification, the invariants (well-formed tree, addresses, "
     "stub chains, Rcore) hold at every intermediate state (C16_invariant_rules) and, once all are done, the pages with crawled marks are "
     "those of the batches applied one after another, the out- and in-chains of every page are permutations of the sequential ones, in = "
